@@ -237,11 +237,11 @@ def build(tier, seed):
         args["self"] = cmodel.mk_circuit(ns, "self")
         cmodel.axioms()
     obs.append(vprop.fn_ob("C08", cs["inverse"], {}, call=lambda ns, a: a["self"].inverse(), setup=setup_self, overrides=cmodel.overrides(), fallback=fbn,
-                           obid="C08.inverse.all_lengths.contract", timeout_ms=30000,
+                           obid="C08.inverse.all_lengths.contract", timeout_ms=30000, replay_code=cmodel.replay("inverse"),
                            desc="for circuits of ANY length: inverse keeps the width, operation j is the dagger of operation m-1-j on exactly the same qubit tuple; "
                                 "a non-gate operation trips the assertion"))
     obs.append(vprop.fn_ob("C08", cs["controlled"], {}, call=lambda ns, a: a["self"].controlled(a["control_index"]), setup=setup_self, overrides=cmodel.overrides(), fallback=fbn,
-                           obid="C08.controlled.all_lengths.contract", timeout_ms=30000,
+                           obid="C08.controlled.all_lengths.contract", timeout_ms=30000, replay_code=cmodel.replay("controlled"),
                            desc="for circuits of ANY length and EVERY control index: width max(n,k)+1, operation j = gate_j.controlled(1) on (k, qubits of op j with indices >= k shifted by one), "
                                 "same order; the shift never produces k (loop invariant)"))
     obs.append(vprop.enum_ob("C08.native.enum", FNI + FNC + [GEN + ":create_layer_of_gates"], lambda: range(3), _check_native,
